@@ -83,6 +83,12 @@ structure Ghost where
 /-- Nobody but the application and the windows holds anything. -/
 def Ghost.none : Ghost := {}
 
+/-- The windows whose count is known exactly: the root window (no dying parent can take a reference from it), and
+    every window the library holds no reference of its own to. -/
+def Ghost.covers (gh : Ghost) (i : Nat) : Prop := i = 0 ∨ gh.win i = 0
+
+theorem Ghost.none_covers (i : Nat) : Ghost.none.covers i := .inr rfl
+
 @[simp] theorem Ghost.none_term : Ghost.none.term = 0 := rfl
 @[simp] theorem Ghost.none_win (i : Nat) : Ghost.none.win i = 0 := rfl
 
@@ -124,11 +130,11 @@ structure SInvB (gh : Ghost) (st : St) (pending : List Nat) : Prop where
   simple : SimpleOk st
 
 /-- The state invariant: `SInvB`, and no live window holds more references than the application has taken and the
-    library holds itself (no handler is running, so nobody else holds one); the root window, which no dying parent can
-    take a reference from, holds exactly those. -/
+    library holds itself (no handler is running, so nobody else holds one), and exactly that many if the library holds
+    none of its own or the window is the root window. -/
 structure SInvG (gh : Ghost) (st : St) (pending : List Nat) : Prop extends SInvB gh st pending where
   wref : ∀ (i : Nat) (w : Win), LiveW st.tree i w → w.refcount ≤ ((getX st i).appRefs : Int) + (gh.win i : Int) ∧
-    (i = 0 → ((getX st i).appRefs : Int) + (gh.win i : Int) ≤ w.refcount)
+    (gh.covers i → ((getX st i).appRefs : Int) + (gh.win i : Int) ≤ w.refcount)
   /-- a root window the library itself holds a reference to is alive -/
   glive : 0 < gh.win 0 → ∃ r, LiveW st.tree 0 r
 
@@ -569,10 +575,11 @@ theorem unrefT_ok {cfg : Cfg} (R : Repaired cfg) {st : St} (inv : SInvB gh st []
     ∃ t' dead dropped, unrefT cfg st.tree x = .ok (t', dead, dropped) ∧ SInvB gh { st with tree := t' } dead ∧
       t'.wins.size = st.tree.wins.size ∧
       (∀ (i : Nat) (w : Win), st.tree.wins[i]? = some w → w.freed = true → ∃ w', t'.wins[i]? = some w' ∧ w'.freed = true) ∧
-      dropped.Nodup ∧
+      (dropped.Nodup ∧ ∀ i ∈ dropped, x < i) ∧
       (∀ (i : Nat) (w' : Win), LiveW t' i w' → ∃ w, LiveW st.tree i w ∧
         w'.refcount + (if i = x then 1 else 0) + (if i ∈ dropped then 1 else 0) ≤ w.refcount) ∧
-      (∀ (w w' : Win), LiveW st.tree 0 w → LiveW t' 0 w' → w.refcount ≤ w'.refcount + (if x = 0 then 1 else 0)) ∧
+      (∀ (i : Nat) (w w' : Win), LiveW st.tree i w → LiveW t' i w' →
+        w.refcount ≤ w'.refcount + (if i = x then 1 else 0) + (if i ∈ dropped then 1 else 0)) ∧
       (∀ (w : Win), LiveW st.tree 0 w → (x ≠ 0 ∨ 2 ≤ w.refcount) → ∃ w', LiveW t' 0 w') := by
   have hr1 := inv.rc x xw hl
   obtain ⟨inv0, _⟩ := inv.tinv.set_refcount hl (xw.refcount - 1)
@@ -625,22 +632,24 @@ theorem unrefT_ok {cfg : Cfg} (R : Repaired cfg) {st : St} (inv : SInvB gh st []
         by_cases h0 : (0 : Nat) = x
         · subst h0; exact ⟨_, hl0⟩
         · exact ⟨r, by rw [set_get_ne _ (Ne.symm h0)]; exact hr.1, hr.2⟩
-    refine ⟨?_, hsz, fun i w hw hf => by obtain ⟨w', hw', h1, _⟩ := evs i w hw; exact ⟨w', hw', h1 hf⟩, C.drop.1, ?_, ?_, ?_⟩
+    refine ⟨?_, hsz, fun i w hw hf => by obtain ⟨w', hw', h1, _⟩ := evs i w hw; exact ⟨w', hw', h1 hf⟩,
+      ⟨C.drop.1, fun i hi => (C.drop.2 i hi).1⟩, ?_, ?_, ?_⟩
     rotate_right 2
-    · -- the root window is no child: nobody takes a reference from it
-      intro w w' hlw hlw'
-      obtain ⟨w'', hw'', _, h3⟩ := evs 0 w hlw.1
+    · -- the mirror of the upper bound: only `x` and the dropped children lose a reference, and exactly one
+      intro i w w' hlw hlw'
+      obtain ⟨w'', hw'', _, h3⟩ := evs i w hlw.1
       have e1 : w'' = w' := by rw [hlw'.1] at hw''; exact (Option.some.inj hw'').symm
       subst e1
-      obtain ⟨h0x, _, _⟩ := h3 hlw'.2
-      have hxpos : 0 < x := Nat.pos_of_ne_zero (fun e => h0x e.symm)
-      have ht0 : (WinTree.set st.tree x { xw with refcount := 0 }).wins[0]? = some w := by
-        rw [set_get_ne _ (Ne.symm h0x)]; exact hlw.1
-      have hx0 : ¬ x = 0 := fun e => h0x e.symm
-      simp only [hx0, if_false]
-      rcases C.below 0 w hxpos ht0 with ⟨_, h⟩ | ⟨_, h⟩
-      · rw [hlw'.1] at h; cases h; omega
-      · rw [hlw'.1] at h; cases h; show w.refcount ≤ (unlinkedParent w x).refcount + 0; simp [unlinkedParent]
+      obtain ⟨hix, _, _⟩ := h3 hlw'.2
+      have ht0 : (WinTree.set st.tree x { xw with refcount := 0 }).wins[i]? = some w := by
+        rw [set_get_ne _ (Ne.symm hix)]; exact hlw.1
+      simp only [hix, if_false]
+      by_cases hd' : i ∈ dropped
+      · have := ((C.drop.2 i hd').2.2 w w'' ht0 hlw'.1 hlw'.2).1
+        simp only [hd', if_true]; omega
+      · simp only [hd', if_false]
+        have := C.conv i w w'' hix ht0 hlw'.1 hlw'.2 hd'
+        omega
     · -- the root window is not below `x`: it stays
       intro w hlw hcase
       have hx0 : x ≠ 0 := by
@@ -735,19 +744,19 @@ theorem unrefT_ok {cfg : Cfg} (R : Repaired cfg) {st : St} (inv : SInvB gh st []
         · simp only [hd', if_false]
           rcases e.2.2.1 hli.2 with h | ⟨h, _, _⟩ <;> omega
   · simp only [hz, if_false, pure_ok]
-    refine ⟨_, [], [], rfl, ?_, by simp only [set_size], ?_, List.nodup_nil, ?_, ?_, ?_⟩
+    refine ⟨_, [], [], rfl, ?_, by simp only [set_size], ?_, ⟨List.nodup_nil, by intro i hi; cases hi⟩, ?_, ?_, ?_⟩
     rotate_right 2
-    · intro w w' hlw hlw'
-      by_cases h0x : x = 0
-      · subst h0x
+    · intro i w w' hlw hlw'
+      by_cases hix : i = x
+      · subst hix
         have := LiveW.unique hlw' hl0; subst this
         have := LiveW.unique hlw hl; subst this
-        simp only [if_true]
-        show w.refcount ≤ w.refcount - 1 + 1
+        simp only [if_true, List.not_mem_nil, if_false]
+        show w.refcount ≤ w.refcount - 1 + 1 + 0
         omega
-      · have : LiveW st.tree 0 w' := ⟨by rw [← set_get_ne _ h0x]; exact hlw'.1, hlw'.2⟩
+      · have : LiveW st.tree i w' := ⟨by rw [← set_get_ne _ (Ne.symm hix)]; exact hlw'.1, hlw'.2⟩
         have := LiveW.unique hlw this; subst this
-        simp only [h0x, if_false]; omega
+        simp only [hix, if_false, List.not_mem_nil]; omega
     · intro w hlw _
       by_cases h0x : x = 0
       · subst h0x; exact ⟨_, hl0⟩
@@ -832,6 +841,28 @@ theorem consume_appRefs : ∀ (dropped : List Nat) (st : St) (j : Nat), dropped.
       simp only [List.mem_cons, hji, false_or]
       exact ih
 
+/-- `consume` takes exactly one reference of a listed window the application holds. -/
+theorem consume_dec : ∀ (dropped : List Nat) (st : St) (j : Nat), dropped.Nodup → j ∈ dropped → j < st.wx.size →
+    (getX (consume st dropped) j).appRefs = (getX st j).appRefs - 1
+  | [], _, _, _, hj, _ => by cases hj
+  | i :: rest, st, j, hnd, hj, hlt => by
+    obtain ⟨hni, hnd'⟩ := List.nodup_cons.1 hnd
+    have e : consume st (i :: rest) = consume (setX st i { getX st i with appRefs := (getX st i).appRefs - 1 }) rest := rfl
+    rw [e]
+    simp only [List.mem_cons] at hj
+    by_cases hij : j = i
+    · subst hij
+      -- the rest does not touch `j`
+      have h1 := consume_appRefs rest (setX st j { getX st j with appRefs := (getX st j).appRefs - 1 }) j hnd'
+      simp only [hni, if_false, Nat.add_zero] at h1
+      rw [getX_setX_self _ hlt] at h1
+      have : (getX (consume (setX st j { getX st j with appRefs := (getX st j).appRefs - 1 }) rest) j).appRefs =
+          (getX st j).appRefs - 1 := Nat.le_antisymm h1.1 h1.2
+      exact this
+    · have hjr : j ∈ rest := by rcases hj with h | h; exact absurd h hij; exact h
+      have ih := consume_dec rest (setX st i { getX st i with appRefs := (getX st i).appRefs - 1 }) j hnd' hjr (by simpa using hlt)
+      rw [ih, getX_setX_ne _ (fun h => hij h.symm)]
+
 /-- `tickit_window_unref` by the application on a window it holds: never fails, keeps the invariant; the tree keeps
     its size, what was freed stays freed, and the application has one reference less. -/
 theorem unrefW_ok {cfg : Cfg} (R : Repaired cfg) {st : St} (inv : SInv gh st) {x : Nat} (hh : heldW st x = true) :
@@ -844,7 +875,7 @@ theorem unrefW_ok {cfg : Cfg} (R : Repaired cfg) {st : St} (inv : SInv gh st) {x
   have hxlt : x < st.wx.size := by rw [inv.wx_size]; exact hl.lt
   have inv0 : SInvB gh (setX st x { getX st x with appRefs := (getX st x).appRefs - 1 }) [] :=
     inv.toSInvB.of_wx rfl rfl rfl rfl rfl (setX_map_pen _ rfl)
-  obtain ⟨t', dead, dropped, ht, invG, hsz, hfr, hnd, hcnt, hrootc, hrootl⟩ := unrefT_ok R inv0 (x := x) (xw := xw) hl
+  obtain ⟨t', dead, dropped, ht, invG, hsz, hfr, ⟨hnd, hdgt⟩, hcnt, hlow, hrootl⟩ := unrefT_ok R inv0 (x := x) (xw := xw) hl
   have hf := consume_frame dropped { (setX st x { getX st x with appRefs := (getX st x).appRefs - 1 }) with tree := t' }
   have invC : SInvB gh (consume { (setX st x { getX st x with appRefs := (getX st x).appRefs - 1 }) with tree := t' } dropped) dead :=
     invG.of_wx hf.1 hf.2.1 hf.2.2.1 hf.2.2.2.1 hf.2.2.2.2.1 (consume_map_pen dropped _)
@@ -875,7 +906,7 @@ theorem unrefW_ok {cfg : Cfg} (R : Repaired cfg) {st : St} (inv : SInv gh st) {x
     · right
       subst hx0
       have := LiveW.unique hr hl; subst this
-      have h2 := (inv.wref 0 r hr).2 rfl
+      have h2 := (inv.wref 0 r hr).2 (.inl rfl)
       have : (1 : Int) ≤ ((getX st 0).appRefs : Int) := by exact_mod_cast hpos
       have : (1 : Int) ≤ (gh.win 0 : Int) := by exact_mod_cast hg
       omega
@@ -898,17 +929,42 @@ theorem unrefW_ok {cfg : Cfg} (R : Repaired cfg) {st : St} (inv : SInv gh st) {x
       · have hix : ¬ i = x := fun h => hxi h.symm
         simp only [hxi, hix, if_false] at hle h2
         by_cases hd' : i ∈ dropped <;> simp only [hd', if_true, if_false] at hle h2 <;> omega
-    · intro hi0
-      subst hi0
-      have h3 := (inv.wref 0 w hlw).2 rfl
-      have h4 := hrootc w w' hlw hli
-      have h5 := (happ 0).1
-      by_cases hx0 : x = 0
-      · subst hx0
-        simp only [if_true] at h4 h5
+    · intro hcov
+      have h3 := (inv.wref i w hlw).2 hcov
+      have h4 := hlow i w w' hlw hli
+      by_cases hxi : x = i
+      · subst hxi
+        have hxd : x ∉ dropped := fun hd' => by have := hdgt x hd'; omega
+        simp only [if_true, hxd, if_false] at h4 h2
         omega
-      · simp only [hx0, if_false] at h4 h5
-        omega
+      · have hix : ¬ i = x := fun h => hxi h.symm
+        simp only [hix, if_false] at h4
+        by_cases hd' : i ∈ dropped
+        · simp only [hd', if_true] at h4
+          have hilt : i < st.wx.size := by rw [inv.wx_size]; exact hlw.lt
+          have hdec := consume_dec dropped { (setX st x { getX st x with appRefs := (getX st x).appRefs - 1 }) with tree := t' } i hnd hd'
+            (by simpa using hilt)
+          have e0 : getX { (setX st x { getX st x with appRefs := (getX st x).appRefs - 1 }) with tree := t' } i =
+              getX (setX st x { getX st x with appRefs := (getX st x).appRefs - 1 }) i := rfl
+          rw [e0, getX_setX_ne _ hxi] at hdec
+          rw [ha2 i, hdec]
+          have h5 := inv.rc i w hlw
+          have hrc' : 1 ≤ w'.refcount := by
+            have := inv2.rc i w' (by rw [htree]; exact hli)
+            exact this
+          -- the child had two references at least, so the application held one
+          rcases hcov with h0 | hg
+          · subst h0
+            have := hdgt 0 hd'
+            omega
+          · rw [hg] at h3 ⊢
+            have : (1 : Int) ≤ ((getX st i).appRefs : Int) := by omega
+            omega
+        · simp only [hd', if_false] at h4
+          have := (happ i).1
+          simp only [hxi, if_false] at this
+          have h7 : ((getX st2 i).appRefs : Int) ≤ ((getX st i).appRefs : Int) := by exact_mod_cast this
+          omega
   · intro i w hw hfw
     rw [htree]
     exact hfr i w hw hfw
